@@ -107,4 +107,180 @@ theorem deliver_length_nonwriter (t : Transport) (m : Msg) (ws : List Resp) (wok
     (ht : t.nonWriter = true) : (deliver t m ws wok).msgs.length ≤ 1 := by
   cases t <;> simp [Transport.nonWriter] at ht <;> simp only [deliver] <;> (try split) <;> simp
 
+/-! ## An independent, table-shaped specification
+
+Written from the property statement, not from `serveCore`/`deliver`: classify
+the message, then say per class what the client must get. -/
+
+inductive Class | response | opcode | counts | ok
+deriving DecidableEq, Repr
+
+def classify (m : Msg) : Class :=
+  if m.qr then .response
+  else if ¬ (m.opcode = 0 ∨ m.opcode = 4) then .opcode
+  else if m.questions.length = 1 ∧ m.nAn ≤ 1 ∧ m.nNs ≤ 1 then .ok
+  else .counts
+
+/-- An error response as the documentation describes it: the request's id,
+opcode and (first) question, RD/CD echoed for QUERY, the rcode, no records. -/
+def errResp (m : Msg) (rcode : Nat) (ede : Option Nat) : Resp :=
+  { id := m.id, opcode := m.opcode, rcode := rcode,
+    rd := if m.opcode = 0 then m.rd else false, cd := if m.opcode = 0 then m.cd else false,
+    questions := match m.questions with | [] => [] | q :: _ => [q],
+    answers := [], ede := ede }
+
+/-- DoQ and DNSCrypt never leave a request unanswered. -/
+def Transport.synthesises : Transport → Bool
+  | .doq | .dnscryptUDP | .dnscryptTCP => true
+  | _ => false
+
+def specMsgs (t : Transport) (m : Msg) (o : Outcome) (wok : Bool) : List Resp :=
+  if t = .doq ∧ m.edns = true ∧ m.keepalive = true then [] else
+  let one (r : Resp) : List Resp := if t.nonWriter || wok then [r] else []
+  let nothing : List Resp := if t.synthesises then [errResp m 2 none] else []
+  let sf (ne : Bool) : Resp := errResp m 2 (if ne && m.edns then some 23 else none)
+  match classify m with
+  | .response => nothing
+  | .opcode => one (errResp m 4 none)
+  | .counts => one (errResp m 1 none)
+  | .ok =>
+    match o with
+    | .silent => nothing
+    | .wrote r => one r
+    | .failed ne => one (sf ne)
+    | .wroteFailed _ ne => if t.nonWriter then [sf ne] else []
+
+theorem errResp_eq_setRcode (m : Msg) (c : Nat) : errResp m c none = setRcode m c := by
+  unfold errResp setRcode
+  cases hq : m.questions <;> by_cases h0 : m.opcode = 0 <;> simp [h0]
+
+theorem errResp_eq_servFail (m : Msg) (ne : Bool) :
+    errResp m 2 (if ne && m.edns then some 23 else none) = servFail m ne := by
+  unfold errResp servFail setRcode rcServFail edeNetworkError
+  cases hq : m.questions <;> by_cases h0 : m.opcode = 0 <;> simp [h0]
+
+theorem classify_accept (m : Msg) :
+    (classify m = .response ↔ acceptMsg m = .ignore) ∧ (classify m = .opcode ↔ acceptMsg m = .notimp) ∧
+    (classify m = .counts ↔ acceptMsg m = .formerr) ∧ (classify m = .ok ↔ acceptMsg m = .accept) := by
+  unfold classify acceptMsg
+  cases hq : m.qr <;> simp
+  by_cases h0 : m.opcode = 0 <;> by_cases h4 : m.opcode = 4 <;>
+    by_cases hl : m.questions.length = 1 <;> by_cases ha : m.nAn > 1 <;>
+    by_cases hn : m.nNs > 1 <;> simp [h0, h4, hl, ha, hn]
+  all_goals (split <;> simp_all)
+
+theorem validQUIC_false_iff (m : Msg) : validQUICMsg m = false ↔ (m.edns = true ∧ m.keepalive = true) := by
+  unfold validQUICMsg; cases m.edns <;> cases m.keepalive <;> simp
+
+theorem servFail_eq_errResp' (m : Msg) (ne : Bool) :
+    servFail m ne = errResp m 2 (if ne = true ∧ m.edns = true then some 23 else none) := by
+  rw [← errResp_eq_servFail m ne]; cases ne <;> cases m.edns <;> rfl
+
+
+/-! ## Wire contract -/
+
+theorem wireAgrees_hdr (b : List Nat) (m : Msg) (h : WireAgrees b m) : HdrAgrees b m := by
+  unfold WireAgrees wireAgreesB at h
+  cases hp : parseHdr b with
+  | none => simp [hp] at h
+  | some hd =>
+    simp at h
+    exact ⟨hd, hp, by simp_all⟩
+
+theorem parseHdr_none_of_short (b : List Nat) (h : b.length < 12) : parseHdr b = none := by
+  match b, h with
+  | [], _ => rfl
+  | [_], _ => rfl
+  | [_, _], _ => rfl
+  | [_, _, _], _ => rfl
+  | [_, _, _, _], _ => rfl
+  | [_, _, _, _, _], _ => rfl
+  | [_, _, _, _, _, _], _ => rfl
+  | [_, _, _, _, _, _, _], _ => rfl
+  | [_, _, _, _, _, _, _, _], _ => rfl
+  | [_, _, _, _, _, _, _, _, _], _ => rfl
+  | [_, _, _, _, _, _, _, _, _, _], _ => rfl
+  | [_, _, _, _, _, _, _, _, _, _, _], _ => rfl
+  | _ :: _ :: _ :: _ :: _ :: _ :: _ :: _ :: _ :: _ :: _ :: _ :: _, h => (simp at h; omega)
+
+/-- A sound decoder rejects anything shorter than a header. -/
+theorem unpack_none_of_short (unpack : List Nat → Option Msg) (hu : UnpackOK unpack) (b : List Nat)
+    (h : b.length < 12) : unpack b = none := by
+  cases hb : unpack b with
+  | none => rfl
+  | some m =>
+    have := hu b m hb
+    unfold WireAgrees wireAgreesB at this
+    simp [parseHdr_none_of_short b h] at this
+
+/-- The DoQ reader, whatever the pooled buffer held, either rejects the stream
+that carries `b` or hands exactly `b` to `Unpack`. -/
+theorem quicPayload_frame (pool b : List Nat) :
+    quicPayload pool (frameDoQ b) = none ∨ quicPayload pool (frameDoQ b) = some b := by
+  unfold quicPayload bufAfterRead frameDoQ
+  simp only [List.length_append, List.length_cons, List.length_nil]
+  by_cases h : 0 + 1 + 1 + b.length < 12
+  · left; simp [h]
+  · simp only [h, if_false]
+    split
+    · left; rfl
+    · right
+      simp only [List.cons_append, List.nil_append, List.drop_succ_cons, List.drop_zero]
+      have : 0 + 1 + 1 + b.length - 2 = b.length := by omega
+      rw [this, List.take_left']
+      rfl
+
+/-- `serveBytes` is `dropped` or `serveWire` on (a prefix of) the message's own bytes. -/
+theorem serveBytes_cases (t : Transport) (pool b : List Nat) (unpack : List Nat → Option Msg)
+    (o : Outcome) (wok : Bool) :
+    serveBytes t pool b unpack o wok = dropped t ∨
+    (serveBytes t pool b unpack o wok = serveWire t (unpack b) o wok ∧ (t = .udp → 12 ≤ b.length)) ∨
+    (t = .udp ∧ udpBufSize < b.length ∧
+      serveBytes t pool b unpack o wok = serveWire t (unpack (b.take udpBufSize)) o wok) := by
+  cases t
+  case udp =>
+    unfold serveBytes unpackInput
+    by_cases h : b.length < 12
+    · left; simp [h]
+    · by_cases h2 : udpBufSize < b.length
+      · right; right; simp [h, h2]
+      · right; left
+        have : b.take udpBufSize = b := List.take_of_length_le (by omega)
+        simp [h, this]; omega
+  case doq =>
+    unfold serveBytes unpackInput
+    rcases quicPayload_frame pool b with h | h
+    · left; simp [h]
+    · right; left; simp [h]
+  all_goals (right; left; simp [serveBytes, unpackInput])
+
+theorem dropped_msgs (t : Transport) : (dropped t).msgs = [] := by cases t <;> rfl
+
+
+/-! Concrete wire input for the non-vacuity examples. -/
+def sampleWire : List Nat :=
+  [0xab, 0xcd, 1, 0, 0, 1, 0, 0, 0, 0, 0, 0, 3, 119, 119, 119, 0, 0, 1, 0, 1]
+def sampleWireMsg : Msg :=
+  ⟨0xabcd, false, 0, true, false, [⟨hexStr [3, 119, 119, 119, 0], 1, 1⟩], 0, 0, false, false⟩
+/-- A decoder that knows one message. -/
+def sampleUnpack : List Nat → Option Msg := fun b => if b = sampleWire then some sampleWireMsg else none
+
+theorem sampleUnpack_ok : UnpackOK sampleUnpack := by
+  intro b m h
+  unfold sampleUnpack at h
+  split at h
+  · rename_i hb
+    simp at h
+    subst hb; subst h
+    show wireAgreesB sampleWire sampleWireMsg = true
+    decide
+  · simp at h
+
+/-- What the client of one datagram sees, on its own. -/
+def perDatagram (unpack : List Nat → Option Msg) (handler : Msg → Outcome) (wok : Bool) : UdpRead → List Sees
+  | .dgram b => [serveBytes .udp [] b unpack
+      (match unpack (b.take udpBufSize) with | some m => handler m | none => .silent) wok]
+  | _ => []
+
+
 end Agd.Serve
